@@ -31,6 +31,11 @@ def canon(raw):
             return (255, 0xE1, 0, "-")
         if sub == 6 and data.lower() == b"loopend":
             return (255, 0xE2, 0, "-")
+        if sub == 6 and data.lower().startswith(b"loopstart="):
+            digits = re.match(rb"\s*[+-]?(\d*)", data[10:]).group(1)
+            return (255, 0xE4, 0, "%02x" % (int(digits or b"0") % 256))        # counted loop start: the count is the payload
+        if sub == 6 and data.lower().startswith(b"loopend="):
+            return (255, 0xE5, 0, "-")
         return (255, sub, 0, data.hex() or "-")
     if b0 in (0xF0, 0xF7):
         i = 1
@@ -133,6 +138,7 @@ def check_delivery(song, line, stamps="time", disabled_tracks=(), solo=None, tem
     for (st, f) in E:
         by_stamp.setdefault(st, []).append((int(f[0]), int(f[1]), int(f[2]), f[3]))
     sounding = set()
+    tainted = set()
     eff_sorted = sorted(eff, key=lambda x: (x[0], x[1], x[2]))
     ptr = 0
     def subseq(xs, pred):
@@ -167,11 +173,15 @@ def check_delivery(song, line, stamps="time", disabled_tracks=(), solo=None, tem
                     allowed = [[8] + FK[:k0] + FK[k0 + 1:]]
                 else:
                     allowed = [FK]
+                first_on_f0 = FK.index(9) if 9 in FK else len(FK)
+                if FK.count(9) >= 2 or FK[:first_on_f0].count(8) - (1 if key in sounding else 0) > 0:
+                    tainted.add(key)            # the known pattern: afterwards the sequencer's note-state cache may disagree with what was delivered
                 if DK not in allowed:
                     # a note-off written before a note-on of the same key at the same tick (other than the release of a sounding note)
                     first_on_f = FK.index(9) if 9 in FK else len(FK)
                     offs_before = FK[:first_on_f].count(8) - (1 if key in sounding else 0)
-                    if offs_before > 0 or FK.count(9) >= 2:
+                    if offs_before > 0 or FK.count(9) >= 2 or key in tainted:
+                        tainted.add(key)        # from here on the sequencer's idea of whether this key sounds may differ from what was delivered
                         known_hits.append("at %s key %s of channel %d: file order %s delivered as %s" % (st, key[1], key[0], FK, DK))
                     else:
                         fails.append("at %s the note-on/off events of key %s on channel %d (file order %s, key %s before this tick) are delivered as %s" % (
@@ -213,7 +223,7 @@ def histories(ctx):
     rng = ctx.rng
     quick = ctx.tier == "quick"
     hs = []
-    n = 14 if quick else 120
+    n = 14 if quick else 500
     for i in range(n):
         song = gen_song(rng, loops=None if i % 3 else "none", big=(i % 9 == 8 and not quick))
         if song.loops == "none":
